@@ -91,21 +91,23 @@ FieldValue(p, e) ==
   ELSE R(MonoValue(p, e))
 Length(p)   == CHOOSE r \in 0..500 : r * r = MagSq3(p)          \* of a Pythagorean point
 
-\* what must be observable in the current state (rationals as normalised <<n, d>>)
-Observation ==
+\* what must be observable of the object (aa / dd, |.| = mm / dd, bb) held in representation rr
+\* (rationals as normalised <<n, d>>)
+ObsAt(aa, dd, mm, bb, rr) ==
   IF obj = "vector"
-  THEN [a    |-> [i \in 1..3 |-> Norm(a[i], den)],
-        b    |-> b,
-        dot  |-> Norm(Dot3(a, b), den),                           \* a . b
-        msq  |-> Norm(MagSq3(a), den * den),                      \* |a|^2
-        mag  |-> Norm(magn, den),                                 \* |a| >= 0 whatever the sign of the scale factors
-        unit |-> [i \in 1..3 |-> Norm(a[i], magn)],               \* a / |a|
-        proj |-> [i \in 1..3 |-> Norm(Dot3(a, b) * b[i], den * MagSq3(b))]]   \* (a.b / b.b) b
-  ELSE [value |-> FieldValue(a, b),
+  THEN [a    |-> [i \in 1..3 |-> Norm(aa[i], dd)],
+        b    |-> bb,
+        dot  |-> Norm(Dot3(aa, bb), dd),                          \* a . b
+        msq  |-> Norm(MagSq3(aa), dd * dd),                       \* |a|^2
+        mag  |-> Norm(mm, dd),                                    \* |a| >= 0 whatever the sign of the scale factors
+        unit |-> [i \in 1..3 |-> Norm(aa[i], mm)],                \* a / |a|
+        proj |-> [i \in 1..3 |-> Norm(Dot3(aa, bb) * bb[i], dd * MagSq3(bb))]]   \* (a.b / b.b) b
+  ELSE [value |-> FieldValue(aa, bb),
         \* applying the field to a point of kind k: the value, or refused when k is not the field's system
-        apply |-> [k \in Reprs |-> IF k = repr THEN "value" ELSE "refused"]]
+        apply |-> [k \in Reprs |-> IF k = rr THEN "value" ELSE "refused"]]
+Observation == ObsAt(a, den, magn, b, repr)
 
-Step(act, arg, ok) == [act |-> act, arg |-> arg, ok |-> ok, repr |-> repr', obs |-> Observation']
+Step(act, arg, ok, obs) == [act |-> act, arg |-> arg, ok |-> ok, repr |-> repr', obs |-> obs]
 
 -----------------------------------------------------------------------------
 Init == /\ obj = Object
@@ -126,14 +128,16 @@ Rebase(to) ==
   /\ (OnAxis(a) => to \in {"cart", repr})         \* into a system where the vector is singular: not covered
   /\ UNCHANGED <<obj, a, den, magn, b, start>>    \* the geometric object is not touched
   /\ IF Allowed(repr, to) THEN repr' = to ELSE repr' = repr
-  /\ path' = Append(path, Step("rebase", to, Allowed(repr, to)))
+  /\ path' = Append(path, Step("rebase", to, Allowed(repr, to),
+                                ObsAt(a, den, magn, b, IF Allowed(repr, to) THEN to ELSE repr)))
 
 Scale(i) ==
   LET k == ScaleTable[i] IN
   /\ obj = "vector" /\ Len(path) < MaxDepth
   /\ a' = Scale3(k[1], a) /\ den' = k[2] * den /\ magn' = AbsI(k[1]) * magn
   /\ UNCHANGED <<obj, b, repr, start>>
-  /\ path' = Append(path, Step("scale", ToString(k[1]) \o "/" \o ToString(k[2]), TRUE))
+  /\ path' = Append(path, Step("scale", ToString(k[1]) \o "/" \o ToString(k[2]), TRUE,
+                                ObsAt(Scale3(k[1], a), k[2] * den, AbsI(k[1]) * magn, b, repr)))
 
 Next == (\E to \in Reprs : Rebase(to)) \/ (\E i \in Scales : Scale(i))
 Spec == Init /\ [][Next]_vars
@@ -146,8 +150,10 @@ TypeOK == /\ obj \in {"vector", "field"} /\ repr \in Reprs /\ Len(path) <= MaxDe
 
 LastIsRebase == path' # path /\ path'[Len(path')].act = "rebase"
 \* re-expression never changes the geometric object, hence no observation
-Geo == IF obj = "vector" THEN Observation ELSE Observation.value
-RebasePreservesObject == [][LastIsRebase => (a' = a /\ den' = den /\ magn' = magn /\ b' = b /\ Geo' = Geo)]_vars
+\* (the value of a field is a function of (a, b) alone by construction; TLC cannot prime the CHOOSE inside it)
+RebasePreservesObject == [][LastIsRebase => /\ a' = a /\ den' = den /\ magn' = magn /\ b' = b
+                                            /\ (obj = "vector" => Observation' = Observation)
+                                            /\ (obj = "field" => path'[Len(path')].obs.value = Observation.value)]_vars
 \* a refused transformation changes nothing, and cylindrical <-> spherical is never answered
 RefusalIsInert == [][(path' # path /\ ~path'[Len(path')].ok) => (repr' = repr /\ a' = a /\ den' = den /\ b' = b)]_vars
 NoDirectCylSph == [][~(repr = "cyl" /\ repr' = "sph") /\ ~(repr = "sph" /\ repr' = "cyl")]_vars
